@@ -168,6 +168,13 @@ def run(ctx):
     # (1, 1.0, True, Decimal('1.0'), Decimal('1.00') ...): each is written as its own decimal text, whatever was
     # encoded before in this process
     from decimal import Decimal
+    streams.append(numbers_stream(ctx, r))
+    return streams
+
+
+def numbers_stream(ctx, r):
+    from decimal import Decimal
+    from senaite.astm import codec
     s4 = Stream("numbers")
     pool = [0, 1, -1, 7, 10, 255, 1.0, 0.0, -1.0, 2.5, 2.50, 1e3, 1e-3, 0.1, True, False, Decimal("1"), Decimal("1.0"),
             Decimal("1.00"), Decimal("2.5"), Decimal("2.50"), Decimal("0"), Decimal("0.0"), Decimal("-7"), 1000, 1000.0,
@@ -193,8 +200,7 @@ def run(ctx):
     for l, i, m, meta in zip(lines, impls, model, metas):
         if m is not None and codecio.canon_model(m) != i:
             s4.disagree(meta, i, m)
-    streams.append(s4)
-    return streams
+    return s4
 
 
 def run_decode(stream, cases, ctx):
